@@ -587,18 +587,35 @@ def gen_skeletons(repo, out, report):
     b2 = fn_body(t2, 'run')
     if b2 is None: raise Refuse('gc::run not found')
     gcs = []; skeleton(b2.items, [], gcs, ev_gc)
+    # the last step of the pass: which functions get declared in the new declared element segment
+    def ev_decl(items, i):
+        x = items[i]
+        if isinstance(x, Tok) and x.k == 'id' and x.s in ('insert', 'remove', 'add', 'sort', 'sort_unstable') and i >= 1 and is_p(items[i - 1], '.') and i + 1 < len(items) and is_g(items[i + 1], '()'):
+            j = i - 2; pre = []
+            while j >= 0 and isinstance(items[j], Tok) and (items[j].k == 'id' or is_p(items[j], '.')) or (j >= 0 and isinstance(items[j], Tok) and items[j].s.isdigit()): pre.insert(0, items[j].s); j -= 1
+            return ''.join(pre) + '.' + x.s + '(' + text(items[i + 1].items).replace(' ', '') + ')'
+        if is_id(x, 'dfs_in_order'): return 'dfs_in_order'
+        if is_id(x, 'return'): return 'return'
+        return None
+    for i, x in enumerate(b2.items):
+        if is_id(x, 'declare_referenced_funcs') and i + 1 < len(b2.items) and is_g(b2.items[i + 1], '()'): gcs.append(('', 'declare_referenced_funcs(' + text(b2.items[i + 1].items).replace(' ', '') + ')'))
+    b3 = fn_body(t2, 'declare_referenced_funcs')
+    if b3 is None: raise Refuse('gc::declare_referenced_funcs not found')
+    decl = []; skeleton(b3.items, [], decl, ev_decl)
+    vis = vis   # unchanged
     def coq_list(l): return '[' + '; '.join('("%s", "%s")' % (a.replace('"', "'"), b.replace('"', "'")) for a, b in l) + ']'
     o = ['(* GENERATED by /verif/translator/gen_more.py (G10): control skeleton of src/passes/used.rs and src/passes/gc.rs -- do not edit *)',
          'From Coq Require Import List String. Import ListNotations. Open Scope string_scope.',
          'Definition used_new_skeleton : list (string * string) :=\n  ' + coq_list(used) + '.',
          'Definition used_visitor_skeleton : list (string * string) :=\n  ' + coq_list(vis) + '.',
-         'Definition gc_run_skeleton : list (string * string) :=\n  ' + coq_list(gcs) + '.']
+         'Definition gc_run_skeleton : list (string * string) :=\n  ' + coq_list(gcs) + '.',
+         'Definition gc_declare_skeleton : list (string * string) :=\n  ' + coq_list(decl) + '.']
     content = '\n'.join(o) + '\n'
     path = os.path.join(out, 'GcSkeleton.v')
     try:
         if open(path).read() != content: open(path, 'w').write(content)
     except OSError: open(path, 'w').write(content)
-    return {'used_new': len(used), 'used_visitor': len(vis), 'gc_run': len(gcs)}
+    return {'used_new': len(used), 'used_visitor': len(vis), 'gc_run': len(gcs), 'gc_declare': len(decl)}
 
 
 def gen_config_emit(repo, out, report):
@@ -656,6 +673,68 @@ def gen_config_emit(repo, out, report):
     return {'setters': len(setters), 'emit_wasm_steps': len(sk)}
 
 
+def gen_valtypes(repo, out, report):
+    """G13: src/ty.rs ValType::parse (wasmparser -> walrus) and ValType::to_wasmencoder_type (walrus -> wasm-encoder), arm by arm,
+    nested `match` on the reference type flattened.  -> coq/Gen/ValTypes.v: gen_vt_parse / gen_vt_emit over the model's valty."""
+    p, t = src_tree(repo, 'src/ty.rs')
+    W = {'I32': 'VT_I32', 'I64': 'VT_I64', 'F32': 'VT_F32', 'F64': 'VT_F64', 'V128': 'VT_V128', 'Funcref': 'VT_Funcref', 'Externref': 'VT_Externref'}
+    X = {'I32': 'X_I32', 'I64': 'X_I64', 'F32': 'X_F32', 'F64': 'X_F64', 'V128': 'X_V128', 'FUNCREF': 'X_Funcref', 'EXTERNREF': 'X_Externref'}
+    def leaf(toks, table, what):
+        # the last identifier of a path / constructor application names the case: ValType::Ref(RefType::Externref) -> Externref
+        ids = [x.s for x in flat_tokens(toks) if isinstance(x, Tok) and x.k == 'id']
+        for i in reversed(ids):
+            if i in table: return table[i]
+        raise Refuse('%s: cannot read the case of `%s`' % (what, text(toks)))
+    def flat_tokens(items):
+        for x in items:
+            if isinstance(x, Group):
+                for y in flat_tokens(x.items): yield y
+            else: yield x
+    def table_of(fn, src_tab, dst_tab, what):
+        b = fn_body(t, fn)
+        if b is None: raise Refuse('ty.rs: fn %s not found' % fn)
+        m = find_match(b.items, lambda sc: True)
+        if m is None: raise Refuse('ty.rs: %s has no match' % fn)
+        res = []
+        def walk(g, prefix):
+            for pat, body in arms(g):
+                if len(pat) == 1 and (is_p(pat[0], '_') or is_id(pat[0], '_')):
+                    res.append(('_', 'ERR' if any(isinstance(x, Tok) and x.s in ('bail', 'bail!') for x in flat_tokens(body)) else None)); continue
+                inner = None
+                for k, x in enumerate(body):
+                    if is_id(x, 'match'):
+                        for y in body[k + 1:]:
+                            if is_g(y, '{}'): inner = y; break
+                        break
+                if inner is None and len(body) == 1 and is_g(body[0], '{}'):
+                    bb = body[0].items
+                    for k, x in enumerate(bb):
+                        if is_id(x, 'match'):
+                            for y in bb[k + 1:]:
+                                if is_g(y, '{}'): inner = y; break
+                            break
+                if inner is not None: walk(inner, pat); continue
+                if any(isinstance(x, Tok) and x.s in ('bail', 'bail!') for x in flat_tokens(body)): res.append((leaf(pat, src_tab, what), 'ERR'))
+                else: res.append((leaf(pat, src_tab, what), leaf(body, dst_tab, what)))
+        walk(m, [])
+        return res
+    parse = table_of('parse', X, W, 'ValType::parse')
+    emit = table_of('to_wasmencoder_type', W, X, 'ValType::to_wasmencoder_type')
+    o = ['(* GENERATED by /verif/translator/gen_more.py (G13): src/ty.rs value-type conversions -- do not edit *)',
+         'From WV Require Import Gen.Ops.',
+         '(* the value types of wasmparser / wasm-encoder that walrus knows; every other reference type is X_OtherRef *)',
+         'Inductive xvalty := X_I32 | X_I64 | X_F32 | X_F64 | X_V128 | X_Funcref | X_Externref | X_OtherRef.',
+         'Definition gen_vt_parse (x : xvalty) : option valty :=\n  match x with\n' + '\n'.join('  | %s => %s' % (a, 'None' if b == 'ERR' else 'Some ' + b) for a, b in parse if a != '_') + '\n  | _ => None\n  end.',
+         'Definition gen_vt_emit (v : valty) : xvalty :=\n  match v with\n' + '\n'.join('  | %s => %s' % (a, b) for a, b in emit) + '\n  end.']
+    if not any(a == '_' and b == 'ERR' for a, b in parse): raise Refuse('ValType::parse: the catch-all arm no longer rejects')
+    content = '\n'.join(o) + '\n'
+    path = os.path.join(out, 'ValTypes.v')
+    try:
+        if open(path).read() != content: open(path, 'w').write(content)
+    except OSError: open(path, 'w').write(content)
+    return {'parse_arms': len(parse), 'emit_arms': len(emit)}
+
+
 def run(repo, out, report, g):
     try:
         report['attrs'] = gen_attrs(repo, out, report)
@@ -665,6 +744,7 @@ def run(repo, out, report, g):
         report['sorts'] = gen_sorts(repo, out, report)
         report['gc_skeleton'] = gen_skeletons(repo, out, report)
         report['config_emit'] = gen_config_emit(repo, out, report)
+        report['valtypes'] = gen_valtypes(repo, out, report)
     except Refuse as e:
         import gen
         raise gen.Refuse(str(e))
